@@ -10,7 +10,8 @@ use syn::*;
 pub fn rewrite_item(item: &mut Item, unit: &Unit, log: &mut Log, lifted: &mut Vec<Item>) {
     match item {
         Item::Struct(s) => {
-            clean_attrs(&mut s.attrs, true, log, &s.ident.to_string());
+            let keep = unit.opts.get("keep_derive").and_then(|v| v.as_array()).map(|a| a.iter().any(|x| x.as_str() == Some(&s.ident.to_string()))).unwrap_or(false);
+            clean_attrs(&mut s.attrs, keep, log, &s.ident.to_string());
             s.vis = parse_quote!(pub);
             for f in s.fields.iter_mut() {
                 f.vis = parse_quote!(pub); // R7
@@ -237,6 +238,10 @@ impl<'a> Body<'a> {
         self.unit.opts.get(key).and_then(|v| v.as_bool()).unwrap_or(false)
     }
 
+    fn opt_list(&self, key: &str) -> Vec<String> {
+        self.unit.opts.get(key).and_then(|v| v.as_array()).map(|a| a.iter().filter_map(|x| x.as_str().map(|s| s.to_string())).collect()).unwrap_or_default()
+    }
+
     fn fresh(&mut self) -> usize {
         let k = self.counter;
         self.counter += 1;
@@ -437,6 +442,10 @@ impl<'a> Body<'a> {
                 quote!(let #inner = #src[#ivar];)
             }
             Pat::Wild(_) => quote!(),
+            Pat::Ident(pi) if self.opt_list("copy_bind").iter().any(|n| pi.ident == n) => {
+                self.note("R4c", format!("`{}` bound by value (Copy element; `a + &b` on f64 is std's forwarding impl of `a + b`)", pi.ident));
+                quote!(let #pi = #src[#ivar];)
+            }
             other => quote!(let #other = &#src[#ivar];),
         };
         self.note("R4", format!("for ({}, {}) in {}.iter().enumerate() -> index loop", ipat.to_token_stream(), xpat.to_token_stream(), src.to_token_stream()));
